@@ -4,8 +4,16 @@ package main
 import (
 	"os"
 
-	_ "kmc/checks"
+	"kmc/checks"
 	"kmc/core"
 )
 
-func main() { os.Exit(core.Main(os.Args[1:])) }
+func main() {
+	if len(os.Args) > 2 && os.Args[1] == "explore" {
+		os.Exit(checks.Explore(os.Args[2:]))
+	}
+	if len(os.Args) > 2 && os.Args[1] == "racerun" {
+		os.Exit(checks.RaceRun(os.Args[2:]))
+	}
+	os.Exit(core.Main(os.Args[1:]))
+}
